@@ -75,8 +75,10 @@ Print Assumptions C08_intersection_names_side.
 
 (* GetSegmentIntersection against an axis-parallel side p3-p4 for |coordinates| <= 2^25 (small_pt), where the four binary64
    cross products are exact: a true result is an end point lying EXACTLY on both closed segments (on_seg: collinear and inside
-   the bounding box), or the segments cross properly and the point is the one GetSegmentIntersectPt computes.
-   PARTIAL: that this computed point is within one unit of the side is validated (leaf correspondence + CHK), not proved. *)
+   the bounding box), or the segments cross properly and the point is the one GetSegmentIntersectPt computes -- as it is (the
+   code as of this writing) or projected onto the side (project_on_side: perpendicular coordinate := the side's, the other
+   clamped to the side's extent; the repair proposed in triage/C08-ip-onto-side.patch).  The proof accepts either form.
+   PARTIAL: that the computed point q0 is within one unit of the side is validated (leaf correspondence + CHK), not proved. *)
 Theorem C08_isect_on_rect_partial :
   forall p1 p2 p3 p4 ip q,
   RectFloat.small_pt p1 -> RectFloat.small_pt p2 -> RectFloat.small_pt p3 -> RectFloat.small_pt p4 ->
@@ -84,7 +86,8 @@ Theorem C08_isect_on_rect_partial :
   GetSegmentIntersection p1 p2 p3 p4 ip = (true, q) ->
   (on_seg q (p3, p4) = true /\ on_seg q (p1, p2) = true /\ (q = p1 \/ q = p2 \/ q = p3 \/ q = p4))
   \/ ((cross p1 p3 p4 * cross p2 p3 p4 < 0 /\ cross p3 p1 p2 * cross p4 p1 p2 < 0)
-      /\ GetSegmentIntersectPt_lo p1 p2 p3 p4 ip = (true, q)).
+      /\ exists q0, GetSegmentIntersectPt_lo p1 p2 p3 p4 ip = (true, q0)
+                    /\ (q = q0 \/ q = RectClipLeaf.project_on_side p3 p4 q0)).
 Proof. exact RectClipLeaf.gsi_on_rect_partial. Qed.
 Print Assumptions C08_isect_on_rect_partial.
 
